@@ -74,6 +74,10 @@ def gen_hist_case(rng, algs=("DE", "NSDE", "GDE3", "GDE3MNN", "GDE32NN", "GDE3P"
     if rng.random() < (0.25 if n_ieq == 0 else 0.15):
         # equality constraints (alone or next to the inequalities); coarse rounding makes some members satisfy them exactly
         cfg["n_eq"] = 1; cfg["Bh"] = [[rng.gauss(0, 1) for _ in range(n_var)]]; cfg["shift_h"] = rng.choice([0.0, -0.5, 0.2])
+    if alg in ("NSDE", "GDE3") and rng.random() < 0.3:
+        cfg["surv"] = "default"; cfg["cf"] = "cd"      # no survival argument: the algorithm's own default operator
+    if alg not in ("GA", "EA") and rng.random() < 0.3:
+        cfg["prime"] = True                             # the process has already stepped a default-constructed algorithm of this class on another problem
     if alg in ("GA", "EA"):
         cfg["n_off"] = rng.choice([ps, max(2, ps // 2), 3])
         cfg["n_init"] = rng.choice([ps, ps, max(4, ps - 3), max(4, ps // 2)])
@@ -119,8 +123,26 @@ def make_algorithm(cfg):
         return NSDER(get_reference_directions("das-dennis", 3, n_partitions=3), de_repair=cfg["repair"], **kw)
     if a in ("GDE3MNN", "GDE32NN", "GDE3P"):
         return {"GDE3MNN": GDE3MNN, "GDE32NN": GDE32NN, "GDE3P": GDE3P}[a](de_repair=cfg["repair"], **kw)
+    if cfg["surv"] == "default":
+        return (NSDE if a == "NSDE" else GDE3)(de_repair=cfg["repair"], **kw)
     sv = (ConstrRankAndCrowding if cfg["surv"] == "ConstrRankAndCrowding" else RankAndCrowding)(crowding_func=cfg["cf"])
     return (NSDE if a == "NSDE" else GDE3)(de_repair=cfg["repair"], survival=sv, **kw)
+
+
+def prime_run(cfg):
+    """earlier in the same process a default-constructed algorithm of the same class was stepped (not copied) on another problem:
+    unconstrained if this case has constraints, constrained otherwise"""
+    c2 = dict(cfg); c2["surv"] = "default"; c2["cf"] = "cd"; c2.pop("n_eq", None); c2.pop("F_array", None)
+    if cfg["n_ieq"] or cfg.get("n_eq"):
+        c2["n_ieq"] = 0
+    else:
+        c2["n_ieq"] = 1; c2["shift"] = 0.0
+    prob = make_problem(c2); alg = make_algorithm(c2)
+    alg.setup(prob, seed=cfg["seed"] + 1, termination=("n_gen", 4), verbose=False)
+    for _ in range(3):
+        if not alg.has_next():
+            break
+        alg.next()
 
 
 class Registry:
@@ -146,6 +168,8 @@ def ind_data(ind, n_ieq, n_eq=0):
 
 def run_history(cfg, hook=None):
     """hook(alg, gen) may interfere after each generation (used by C17/C18)"""
+    if cfg.get("prime"):
+        prime_run(cfg)
     prob = make_problem(cfg); alg = make_algorithm(cfg)
     alg.setup(prob, seed=cfg["seed"], termination=("n_gen", cfg["n_gen"] + 1), verbose=False)
     reg = Registry(); gens_out = []; data = {}
